@@ -402,6 +402,40 @@ def run_c14(run: core.Run, n_spec: int, n_marker: int) -> None:
         if not (a | ~a).is_any():
             run.fail(core.Failure(f"law|compl||{enc_spec(a)}", f"a | ~a = {(a | ~a)!r} is not universal",
                                   {"op": "law", "law": "compl|", "a": enc_spec(a), "b": enc_spec(a), "c": enc_spec(a)}))
+    # deterministic layer (seed C14k: a concatenating fast path in union | union, wrong only when one union lies wholly
+    # below the other and the facing ranges are adjacent -- random triples met that about once in 2 000): ALL ordered
+    # pairs of canonical objects over 3 points, the two-operand laws, the one-operand laws on each RESULT (idempotence,
+    # involution, complement) and associativity with a fixed third operand
+    fixed_rng = __import__("random").Random(14)
+    objs3 = [cells_to_spec(x, points, fixed_rng) for x in sets]
+    thirds = [objs3[i] for i in (len(objs3) // 3, len(objs3) - 2)]
+    n_pairs = 0
+    for a in objs3:
+        na = ~a
+        for b in objs3:
+            n_pairs += 1
+            try:
+                ab, ba, oab, oba = a & b, b & a, a | b, b | a
+                checks = [("comm&", ab, ba), ("comm|", oab, oba), ("absorb1", a & oab, a), ("absorb2", a | ab, a),
+                          ("dm1", ~ab, na | ~b), ("dm2", ~oab, na & ~b),
+                          ("idem&(a&b)", ab & ab, ab), ("idem|(a|b)", oab | oab, oab), ("invol(a|b)", ~~oab, oab), ("invol(a&b)", ~~ab, ab)]
+                for c in thirds:
+                    checks.append(("assoc|", oab | c, a | (b | c)))
+                    checks.append(("assoc&", ab & c, a & (b & c)))
+                bad = [(nm, l, r) for nm, l, r in checks if not (l == r and r == l)]
+                if not (oab & ~oab).is_empty():
+                    bad.append(("compl&(a|b)", oab & ~oab, EmptySpecifier()))
+                if not (ab | ~ab).is_any():
+                    bad.append(("compl|(a&b)", ab | ~ab, AnySpecifier()))
+            except Exception as e:  # noqa: BLE001
+                run.fail(core.Failure(f"law2|raise|{enc_spec(a)}|{enc_spec(b)}", f"a law over a = {a!r}, b = {b!r} raised {type(e).__name__}",
+                                      {"op": "law2", "a": enc_spec(a), "b": enc_spec(b)}))
+                continue
+            n_oracle += len(checks) + 2
+            for nm, l, r in bad[:1]:
+                run.fail(core.Failure(f"law2|{nm}|{enc_spec(a)}|{enc_spec(b)}", f"law {nm} fails for a = {a!r}, b = {b!r}: {l!r} != {r!r}",
+                                      {"op": "law2", "a": enc_spec(a), "b": enc_spec(b)}))
+    run.extra["exhaustive_law_pairs"] = n_pairs
     # markers: both sides evaluate identically
     skips = 0
     from .p_marker import single_layer_pools
@@ -759,6 +793,15 @@ def replay(data: dict) -> bool:
             except Exception:  # noqa: BLE001
                 last = None
         return last != cold_run([ops[-1]], r.get("hashseed", 0))[0]
+    if r["op"] == "law2":
+        a, b = p_spec.dec_spec(r["a"]), p_spec.dec_spec(r["b"])
+        try:
+            ab, oab = a & b, a | b
+            pairs = [(ab, b & a), (oab, b | a), (a & oab, a), (a | ab, a), (~ab, ~a | ~b), (~oab, ~a & ~b), (ab & ab, ab), (oab | oab, oab),
+                     (~~oab, oab), (~~ab, ab)]
+            return any(not (l == r_ and r_ == l) for l, r_ in pairs) or not (oab & ~oab).is_empty() or not (ab | ~ab).is_any()
+        except Exception:  # noqa: BLE001
+            return True
     if r["op"] == "law":
         a, b, c = (p_spec.dec_spec(r[k]) for k in "abc")
         laws = {"comm&": (lambda: a & b, lambda: b & a), "comm|": (lambda: a | b, lambda: b | a),
